@@ -532,9 +532,12 @@ SignalHandler::~SignalHandler() {
 
 void SignalHandler::SetHandler(InterruptHandler handler, void *data) {
   MP_VERIF_SIG_POINT(20);
-  handler_ = handler;
-  MP_VERIF_SIG_POINT(21);
+  // A signal can arrive between the stores: never expose a handler
+  // together with the data of another registration.
+  handler_ = 0;
   data_ = data;
+  MP_VERIF_SIG_POINT(21);
+  handler_ = handler;
   MP_VERIF_SIG_POINT(22);
 }
 
